@@ -264,6 +264,11 @@ macro_rules! forms {
             ("from_f64 0.1", D::from_f64(0.1).unwrap(), 0.1f64 as F),
             ("from_f64 pi", D::from_f64(std::f64::consts::PI).unwrap(), std::f64::consts::PI as F),
             ("from_f64 1e-300", D::from_f64(1e-300).unwrap(), 1e-300f64 as F),
+            // beyond the range of single precision: the float conversion saturates to infinity, it is
+            // not refused
+            ("from_f64 1e300", D::from_f64(1e300).unwrap_or_else(D::zero), 1e300f64 as F),
+            ("from_f64 MAX", D::from_f64(f64::MAX).unwrap_or_else(D::zero), f64::MAX as F),
+            ("from_f64 -3.5e38", D::from_f64(-3.5e38).unwrap_or_else(D::zero), -3.5e38f64 as F),
             ("from_f64 16777217", D::from_f64(16777217.0).unwrap(), 16777217.0f64 as F),
             ("from_f32 0.1", D::from_f32(0.1).unwrap(), 0.1f32 as F),
         ];
